@@ -113,3 +113,35 @@ fn vx_witness_bubble_guess_spec() {
     }
     println!("explored: {n_ok} bubble/dew points with specified composition, {n_bad} not echoed");
 }
+
+/// "Ok only when the OUTER convergence test passed": wide-boiling methane/butane bubble and dew points with non-default
+/// solver options - a coarse tolerance for the inner T/p loop with the default outer tolerance, and a coarse outer
+/// tolerance with a fine inner one.  With the default outer tolerance (1e-10) the phases of an Ok result must agree in
+/// ln f_i to 1e-7 whatever the inner tolerance is.
+#[test]
+fn vx_witness_bubble_guess_options() {
+    use feos_core::SolverOptions;
+    let (mut n_ok, mut n_bad) = (0, 0);
+    let Ok(params) = PcSaftParameters::from_json(vec!["methane", "butane"], "tests/pcsaft/test_parameters.json", None, IdentifierOption::Name) else { println!("explored: 0"); return };
+    let eos = Arc::new(PcSaft::new(Arc::new(params)));
+    for t in [250.0, 300.0, 350.0] {
+        for x1 in [0.1, 0.3, 0.5] {
+            let x = arr1(&[x1, 1.0 - x1]);
+            for inner_tol in [1e-2, 1e-4] {
+                let options = (SolverOptions::new().tol(inner_tol), SolverOptions::default());
+                for bubble in [true, false] {
+                    let r = if bubble { PhaseEquilibrium::bubble_point(&eos, t * KELVIN, &x, None, None, options) } else { PhaseEquilibrium::dew_point(&eos, t * KELVIN, &x, None, None, options) };
+                    let Ok(vle) = r else { continue };
+                    n_ok += 1;
+                    let d = (ln_f(vle.vapor()) - ln_f(vle.liquid())).mapv(f64::abs);
+                    let dmax = d.iter().cloned().fold(0.0, f64::max);
+                    if !(dmax < 1e-7) {
+                        n_bad += 1;
+                        if n_bad <= 5 { println!("WITNESS {}(methane/butane, T={t} K, spec x={x}, inner tolerance {inner_tol:e}, default outer tolerance) returned Ok with |ln f_v - ln f_l| = {d:e}", if bubble { "bubble_point" } else { "dew_point" }); }
+                    }
+                }
+            }
+        }
+    }
+    println!("explored: {n_ok} bubble/dew points with non-default inner tolerance, {n_bad} with unequal fugacities");
+}
